@@ -826,12 +826,17 @@ def company_worker(version, args):
                     a = load(tva) if company else None
                     if a is not None:
                         populate(a, random.Random(f"A{rnd}"), 3)
+                        # things scenario A does for itself that must stay A's business: a write hook, a per-player copy
+                        # with GAIA included (default arguments and registries are process-global state too)
+                        a.on_write(lambda sc: sc.trigger_manager.add_trigger("hook of A"))
+                        a.trigger_manager.copy_trigger_per_player(from_player=1, trigger_select=0, include_gaia=True)
                         [e.armour_attack_quantity for t in a.trigger_manager.triggers for e in t.effects]
                         save(a, "a1")
                     b = load(tvb)
                     if b is None:
                         continue
                     populate(b, rng, 4)
+                    b.trigger_manager.copy_trigger_per_player(from_player=1, trigger_select=0)
                     if a is not None:
                         a.trigger_manager.triggers[0].new_effect.change_object_attack(
                             object_list_unit_id=4, source_player=3, operation=1, armour_attack_class=2, armour_attack_quantity=9)
@@ -839,6 +844,7 @@ def company_worker(version, args):
                     out[key] = save(b, "b")
                     out[key]["readback"] = [[(e.armour_attack_class, e.armour_attack_quantity) for e in t.effects]
                                             for t in b.trigger_manager.triggers]
+                    out[key]["trigger_names"] = [t.name for t in b.trigger_manager.triggers]
                 case += 1
         return {"cases": out}
     finally:
@@ -864,8 +870,9 @@ def company_phase(ctx, R):
             if c is None or c["sha"] != s["sha"]:
                 R.violation({"clause": "save-frame", "what": "company", "version": v},
                             f"version {v}, case {key}: the body scenario B saves differs when another scenario of the same version "
-                            f"(other trigger version) was used in the process: stored effect quantities solo "
-                            f"{s['stored_effect_quantities']} vs in company {c and c['stored_effect_quantities']}",
+                            f"(other trigger version, own write hook, own per-player copies) was used in the process: triggers solo "
+                            f"{s.get('trigger_names')} / in company {c and c.get('trigger_names')}; stored effect quantities solo "
+                            f"{s['stored_effect_quantities']} / in company {c and c['stored_effect_quantities']}",
                             {"company": True, "version": v, "case": key, "solo": s, "company_result": c})
     R.extra["company_cases"] = n
     R.extra["company_versions"] = pick
